@@ -165,6 +165,20 @@ fn main() {
                 None => legs::c08::run(seed, args.thorough(), shards),
             }
         }
+        "c17" => {
+            guard::start_watchdog("c17", std::time::Duration::from_secs(120));
+            match &replay_value {
+                Some(v) => legs::c17::replay(v),
+                None => legs::c17::run(seed, args.thorough(), shards),
+            }
+        }
+        "c19" => {
+            guard::start_watchdog("c19", std::time::Duration::from_secs(120));
+            match &replay_value {
+                Some(v) => legs::c19::replay(v),
+                None => legs::c19::run(seed, args.thorough(), shards),
+            }
+        }
         "consts" => {
             println!("{}", legs::dnsmisc::consts());
             return;
